@@ -1128,13 +1128,7 @@ func (envs *Manager) handleDeviceEvent(evt event.DeviceEvent) {
 				t.SetSafeToStop(true) // we mark this specific task as ok to STOP
 				go func() {
 					if env.IsSafeToStop() { // but then we ask the env whether *all* of them are
-						err = env.TryTransition(NewStopActivityTransition(envs.taskman))
-						if err != nil {
-							log.WithPrefix("scheduler").
-								WithField("partition", envId.String()).
-								WithError(err).
-								Error("cannot stop run after END_OF_STREAM event")
-						}
+						envs.stopActivityOrFail(env, "END_OF_STREAM")
 					}
 				}()
 			}
@@ -1177,17 +1171,35 @@ func (envs *Manager) handleDeviceEvent(evt event.DeviceEvent) {
 			// Only a critical task ends the run: a non-critical one never changes the state of its environment.
 			if env.CurrentState() == "RUNNING" && critical {
 				go func() {
-					err = env.TryTransition(NewStopActivityTransition(envs.taskman))
-					if err != nil {
-						log.WithPrefix("scheduler").
-							WithField("partition", envId.String()).
-							WithError(err).
-							Error("cannot stop run after TASK_INTERNAL_ERROR event")
-					}
+					envs.stopActivityOrFail(env, "TASK_INTERNAL_ERROR")
 				}()
 			}
 		}
 
+	}
+}
+
+// stopActivityOrFail stops the run of env on the core's own initiative. A STOP_ACTIVITY which fails leaves the
+// environment in ERROR, like a failed transition requested through the API: GO_ERROR is attempted and, if that
+// is refused too, the state is forced.
+func (envs *Manager) stopActivityOrFail(env *Environment, why string) {
+	if env == nil {
+		return
+	}
+	err := env.TryTransition(NewStopActivityTransition(envs.taskman))
+	if err != nil {
+		log.WithPrefix("scheduler").
+			WithField("partition", env.Id().String()).
+			WithError(err).
+			Errorf("cannot stop run after %s event, transitioning into ERROR", why)
+		err = env.TryTransition(NewGoErrorTransition(envs.taskman))
+		if err != nil {
+			log.WithPrefix("scheduler").
+				WithField("partition", env.Id().String()).
+				WithError(err).
+				Warn("could not complete GO_ERROR transition, forcing move to ERROR")
+			env.setState("ERROR")
+		}
 	}
 }
 
